@@ -25,6 +25,10 @@ type c17Cfg struct {
 	RenameExports  bool
 	PreserveParams bool
 	Excl           []string
+	// Order: in which order the session's files are handed to Minify ("" = load
+	// order, "reversed", "sorted" by path, "rotated").  Not a minifier option: the
+	// command takes the files as arguments and knows nothing about load order.
+	Order string
 }
 
 func (c c17Cfg) name() string {
@@ -37,6 +41,9 @@ func (c c17Cfg) name() string {
 	}
 	if len(c.Excl) > 0 {
 		parts = append(parts, "exclusions")
+	}
+	if c.Order != "" {
+		parts = append(parts, "inputs-"+c.Order)
 	}
 	if len(parts) == 0 {
 		return "defaults"
@@ -230,17 +237,22 @@ type c17MinResult struct {
 }
 
 func c17Minify(paths []string, srcs []string, cfg c17Cfg) c17MinResult {
+	// the files are handed over in cfg.Order; Outs is in load order again
+	perm := c17InputOrder(cfg.Order, paths)
 	inputs := make([]minifier.InputFile, len(srcs))
-	for i := range srcs {
-		inputs[i] = minifier.InputFile{Path: paths[i], Source: []byte(srcs[i])}
+	for k, i := range perm {
+		inputs[k] = minifier.InputFile{Path: paths[i], Source: []byte(srcs[i])}
 	}
 	res, err := minifier.Minify(inputs, cfg.mini())
 	if err != nil {
 		return c17MinResult{Err: err}
 	}
-	out := c17MinResult{Map: res.SymbolMap}
-	for _, f := range res.Files {
-		out.Outs = append(out.Outs, string(f.Output))
+	if len(res.Files) != len(srcs) {
+		return c17MinResult{Err: fmt.Errorf("Minify returned %d files for %d inputs", len(res.Files), len(srcs))}
+	}
+	out := c17MinResult{Map: res.SymbolMap, Outs: make([]string, len(srcs))}
+	for k, f := range res.Files {
+		out.Outs[perm[k]] = string(f.Output)
 	}
 	return out
 }
